@@ -29,6 +29,12 @@ CONSTANTS Callers,     \* caller slots
           SerialDial,  \* TRUE: as the code (F21); FALSE: callers blocked behind a failing attempt share its failure
           DialModes,   \* what a connection attempt may meet: "accept", "refuse", "blackhole"
           MayClose,    \* the peer may close the connection (or send an unparsable frame, which makes the client close it)
+          RecvOffers,  \* TRUE: a receiver that found the entry offers the packet on the reply channel until the read timeout.
+                       \* FALSE: ClientReadTimeout = 0 in the code as it is: rtimer.After(0) panics while the select of Recv is
+                       \* set up (recovered by Recv): nothing is offered, the receiver ends at once, the call ends by its deadline
+          Stamp,       \* TRUE: every peer packet carries the time it was written (needed by ReplyInTime; more states)
+          InlineRecv,  \* FALSE: as the code (one goroutine per packet).  TRUE: a design in which the connection's only reader runs
+                       \* the receiver itself (kept for non-vacuity of ReplyInTime: a stray reply then holds up everybody else's)
           Transient    \* model-checking economy: caller labels whose next step runs before anybody else moves ({} = every interleaving);
                        \* used only for labels whose step commutes with every step of the other processes in that configuration
 GARB == MaxId + 1       \* pseudo id: a well-framed packet that does not decode
@@ -119,7 +125,7 @@ PeerGet(m) == /\ m \in wire /\ conn = "open"
               /\ UNCHANGED <<eff, msgID, pc, cid, out, st, resp, queueLen, mgrInvoke, tInvoke, conn, dialer, dmode, dialT, sendQ, pkt, rst, rch, lookT, now>>
 PeerIds == DOMAIN seen \cup Foreign
 PeerSend(i) == /\ Len(pkt) < NPkts /\ conn = "open" /\ i \in PeerIds
-               /\ pkt' = Append(pkt, [id |-> i, tag |-> IF i \in DOMAIN seen THEN seen[i] ELSE 0])
+               /\ pkt' = Append(pkt, [id |-> i, tag |-> IF i \in DOMAIN seen THEN seen[i] ELSE 0, t |-> IF Stamp THEN now ELSE 0])
                /\ rst' = Append(rst, "net") /\ rch' = Append(rch, 0) /\ lookT' = Append(lookT, 0)
                /\ UNCHANGED <<eff, msgID, pc, cid, out, st, resp, queueLen, mgrInvoke, tInvoke, conn, dialer, dmode, dialT, sendQ, wire, seen, now>>
 \* the connection goes away (closed by the peer, or by the client after an unparsable frame): what was in flight is lost
@@ -127,7 +133,8 @@ ConnLost == /\ MayClose /\ conn = "open" /\ conn' = "closed" /\ wire' = {}
             /\ rst' = [q \in DOMAIN rst |-> IF rst[q] = "net" THEN "lost" ELSE rst[q]]
             /\ UNCHANGED <<eff, msgID, pc, cid, out, st, resp, queueLen, mgrInvoke, tInvoke, dialer, dmode, dialT, sendQ, seen, pkt, rch, lookT, now>>
 \* connection's recv loop: one full packet -> invokeNum--, go Recv(pkg)
-InOrder(q) == \A r \in 1..(q - 1) : rst[r] # "net"      \* one TCP connection delivers in order
+RecvOver == {"lost", "bad", "push", "dropped", "delivered", "gaveup"}
+InOrder(q) == \A r \in 1..(q - 1) : IF InlineRecv THEN rst[r] \in RecvOver ELSE rst[r] # "net"      \* one TCP connection delivers in order
 RecvPkgBody(q) == /\ q \in DOMAIN rst /\ rst[q] = "net" /\ conn = "open"
                     /\ rst' = [rst EXCEPT ![q] = "spawned"] /\ tInvoke' = tInvoke - 1
                     /\ UNCHANGED <<eff, msgID, pc, cid, out, st, resp, queueLen, mgrInvoke, conn, dialer, dmode, dialT, sendQ, wire, seen, pkt, rch, lookT, now>>
@@ -142,7 +149,7 @@ Lookup(q) == /\ q \in DOMAIN rst /\ rst[q] = "begun"
                 ELSE rst' = [rst EXCEPT ![q] = "dropped"] /\ UNCHANGED <<eff, rch, lookT>>
              /\ UNCHANGED <<eff, msgID, pc, cid, out, st, resp, queueLen, mgrInvoke, tInvoke, conn, dialer, dmode, dialT, sendQ, wire, seen, pkt, now>>
 \* rendezvous on the unbuffered reply channel: only with the caller that owns the channel, only while it is in its select
-Deliver(q) == /\ q \in DOMAIN rst /\ rst[q] = "found" /\ pc[rch[q]] = "wait"
+Deliver(q) == /\ q \in DOMAIN rst /\ rst[q] = "found" /\ pc[rch[q]] = "wait" /\ RecvOffers
               /\ rst' = [rst EXCEPT ![q] = "delivered"] /\ Finish(rch[q], "reply", q) /\ Goto(rch[q], "unreg1")
               /\ UNCHANGED <<eff, msgID, cid, st, resp, queueLen, mgrInvoke, tInvoke, conn, dialer, dmode, dialT, sendQ, wire, seen, pkt, rch, lookT, now>>
 GaveUpDue(q) == ~Timed \/ now >= lookT[q] + ReadTO
@@ -156,7 +163,8 @@ Urgent == \/ \E c \in Callers : pc[c] \in {"idle", "cas", "add", "pre", "sel", "
           \/ dialer # 0 /\ (dmode # "blackhole" \/ now >= dialT + DialBound)
           \/ sendQ # {} /\ conn = "open"
           \/ \E q \in DOMAIN rst : rst[q] \in {"spawned", "begun"}
-          \/ \E q \in DOMAIN rst : rst[q] = "found" /\ (pc[rch[q]] = "wait" \/ now >= lookT[q] + ReadTO)
+          \/ \E q \in DOMAIN rst : rst[q] = "net" /\ conn = "open" /\ InOrder(q)      \* the network takes no time (a late reply is one the peer writes late)
+          \/ \E q \in DOMAIN rst : rst[q] = "found" /\ ((RecvOffers /\ pc[rch[q]] = "wait") \/ now >= lookT[q] + ReadTO)
 Tick == /\ Timed /\ now < Horizon /\ ~Urgent /\ now' = now + 1
         /\ UNCHANGED <<eff, msgID, pc, cid, out, st, resp, queueLen, mgrInvoke, tInvoke, conn, dialer, dmode, dialT, sendQ, wire, seen, pkt, rst, rch, lookT>>
 
@@ -208,6 +216,14 @@ NoResidue == Quiet => (DOMAIN resp = {} /\ queueLen = 0 /\ mgrInvoke = 0)
 TransportBack == (Quiet /\ sendQ = {} /\ \A q \in DOMAIN rst : rst[q] \notin {"net"}) => tInvoke = 0
 \* every call is over by its effective deadline plus the connection-establishment bound
 DeadlineInv == Timed => \A c \in Callers : InFlight(c) => now <= st[c] + eff[c] + DialBound
+\* non-interference in time: a call does not end with a timeout when the peer wrote a reply carrying its id (having seen its
+\* request) before its deadline on a connection that stayed open -- whatever else arrived before that reply (duplicates, late
+\* replies of other calls, foreign ids, pushes, garbage).  Not claimed for ReadTimeout 0 as the code is (RecvOffers = FALSE).
+ReplyInTime == (Timed /\ RecvOffers /\ Stamp) =>
+                 \A c \in Callers : out[c].k = "timeout" =>
+                    ~\E q \in DOMAIN pkt : pkt[q].id = cid[c] /\ pkt[q].tag = c /\ pkt[q].t < st[c] + eff[c] /\ rst[q] # "lost"
+\* ReadTimeout 0 as the code is: no call ever ends with a reply (what MC_c09_read0 shows besides the deadline and the residue)
+NoReplyAtAll == \A c \in Callers : out[c].k # "reply"
 \* a step of the receiver of a packet addressed to no call in flight (late, duplicate after delivery, foreign, push, garbage)
 \* changes no call and no counter of a call
 LateReplyHarmless ==
